@@ -79,6 +79,17 @@ func (h *lifeCase) runHook(flag *bool) {
 	}
 }
 
+// endHookE: the placement applies to the connect event it precedes only
+func (h *lifeCase) endHookE() {
+	h.hookMu.Lock()
+	h.hookE = false
+	if h.restoreP > 0 {
+		runtime.GOMAXPROCS(h.restoreP)
+		h.restoreP = 0
+	}
+	h.hookMu.Unlock()
+}
+
 func (l *ctlListener) Accept() (net.Conn, error) {
 	l.mu.Lock()
 	for {
@@ -96,6 +107,12 @@ func (l *ctlListener) Accept() (net.Conn, error) {
 			c := l.backlog[0]
 			l.backlog = l.backlog[1:]
 			c.accepted = true
+			l.h.hookMu.Lock()
+			if l.h.hookE && l.armed {
+				l.h.hookE = false
+				l.expireNow = true
+			}
+			l.h.hookMu.Unlock()
 			l.mu.Unlock()
 			l.h.runHook(&l.h.hookA) // Shutdown between accept and handler start
 			return c.srv, nil
@@ -189,14 +206,18 @@ type serveRun struct {
 }
 
 type lifeCase struct {
-	svc       *varlink.Service
-	id        string
-	lsns      []*ctlListener
-	conns     []*lifeConn
-	serve     *serveRun
-	hookMu    sync.Mutex
-	hookA     bool
-	hookD     bool
+	svc    *varlink.Service
+	id     string
+	lsns   []*ctlListener
+	conns  []*lifeConn
+	serve  *serveRun
+	hookMu sync.Mutex
+	hookA  bool
+	hookD  bool
+	// hookE: the accept deadline expires right behind the next connection the listener hands out — the
+	// following Accept returns the timeout at once, before anything else gets to run (the case runs on one P)
+	hookE     bool
+	restoreP  int
 	binds     int
 	regs      int
 	hangs     int
@@ -477,6 +498,7 @@ func (h *lifeCase) event(tok string) string {
 			}
 			h.conns = append(h.conns, c)
 			h.waitQuiet()
+			h.endHookE()
 			if c.refused {
 				return "refused"
 			}
@@ -484,11 +506,13 @@ func (h *lifeCase) event(tok string) string {
 		}
 		if len(h.lsns) == 0 { // nothing was ever bound: there is no endpoint to connect to
 			h.conns = append(h.conns, &lifeConn{refused: true})
+			h.endHookE()
 			return "nolsn"
 		}
 		c := h.lsns[len(h.lsns)-1].dial()
 		h.conns = append(h.conns, c)
 		h.waitQuiet()
+		h.endHookE()
 		if c.refused {
 			return "refused"
 		}
@@ -497,6 +521,9 @@ func (h *lifeCase) event(tok string) string {
 		h.hookMu.Lock()
 		if tok == "hA" {
 			h.hookA = true
+		} else if tok == "hE" {
+			h.hookE = true
+			h.restoreP = runtime.GOMAXPROCS(1)
 		} else {
 			h.hookD = true
 		}
@@ -685,11 +712,13 @@ func expandSym(s string) []string {
 		return []string{"hD", "T"}
 	case "Sd":
 		return []string{"hD", "S1"}
+	case "Ce":
+		return []string{"hE", "C"}
 	}
 	return []string{s}
 }
 
-func isConnect(s string) bool { return s == "C" || s == "Ca" || s == "Cd" }
+func isConnect(s string) bool { return s == "C" || s == "Ca" || s == "Cd" || s == "Ce" }
 
 func connRef(s string) int {
 	if len(s) == 2 && strings.IndexByte("QXAF", s[0]) >= 0 && s[1] >= '0' && s[1] <= '9' {
@@ -781,6 +810,9 @@ func lifeSockHistories(prop string, tier string) []sockHistory {
 				{"S1", "C", "C", "X0", "T", "X1", "T"},
 				{"S0", "C", "T", "X0", "T"},
 				{"S1", "C", "T", "H"},
+				{"S1", "Ce", "Q0", "X0", "T"},
+				{"S1", "Ce", "T", "X0", "T"},
+				{"S1", "C", "Ce", "X0", "X1", "T"},
 			}
 			if thorough {
 				enumLife([]string{"S1"}, []string{"C", "X0", "T", "Q0"}, 3, &hs)
@@ -874,7 +906,7 @@ func lifeSockCommand(prop string) func(e *env) error {
 var (
 	alpha14     = []string{"C", "Ca", "Q0", "Q1", "X0", "X1", "A0", "F0", "F1", "K", "H", "B", "L", "S0"}
 	alpha14free = []string{"B", "S0", "S1", "C", "Ca", "Q0", "X0", "K", "H", "L", "T", "G", "R"}
-	alpha15     = []string{"C", "Cd", "Q0", "X0", "X1", "A0", "T", "Ta", "Td", "H"}
+	alpha15     = []string{"C", "Cd", "Ce", "Q0", "X0", "X1", "A0", "T", "Ta", "Td", "H"}
 	alphaRandom = []string{"C", "C", "Ca", "Cd", "Q0", "Q1", "Q2", "X0", "X1", "X2", "A0", "A1", "F0", "F1", "K", "H", "B", "L",
 		"S0", "S1", "Sd", "T", "T", "Ta", "Td", "G", "R"}
 )
